@@ -90,6 +90,21 @@ SOURCE_MUTANTS = [
     # DMRG products: absolute threshold
     ("C11_dmrg_abs", "_dmrg.py", "(b.cpu()*eps/(d**(0.5 if last else 1.5))).numpy()",
      "(0*b.cpu()+eps/(d**(0.5 if last else 1.5))).numpy()", "C11", ["fast_matvec:accuracy", "dmrg_hadamard:accuracy"]),
+    # ---- round 3 ----
+    # amen_solve sweeps directly over the core list of the user supplied x0
+    ("C12_x0_alias", "solvers.py", "    x_cores = x.cores.copy()", "    x_cores = x.cores", "C12", ["amen_solve:guess_unchanged"]),
+    # amen_divide (elementwise_divide) does the same with starting_tensor
+    ("C13_guess_alias", "_division.py", "        x_cores = x.cores.copy()", "        x_cores = x.cores", "C13",
+     ["elementwise_divide:guess_unchanged"]),
+    # x / c computed as x * (1 / c): reciprocal formed in the scalar's own precision
+    ("C13_reciprocal", "_tt_base.py", "cores_new[0] = cores_new[0] / other", "cores_new[0] = cores_new[0] * (1 / other)", "C13",
+     ["tt_div_scalar:exact"]),
+    # function_interpolate rounds the argument tensor(s) before sampling
+    ("C14_round_args", "interpolate.py", "    device = None\n    \n    if not eval_mv and len(N)==1:",
+     "    device = None\n    x = [t.round(eps) for t in x] if eval_mv else x.round(eps)\n    if not eval_mv and len(N)==1:", "C14",
+     ["fi_uni:wellformed_calls", "fi_multi:wellformed_calls"]),
+    # (aliasing `cores = start_tens.cores` / `cores = x_start.cores` in interpolate.py is an equivalent mutant: the very next
+    #  statement re-orthogonalises into fresh lists, the user's object is never written - verified, 0 failures.)
     # AMEn products: absolute threshold.  INFORMATIONAL ONLY (not required to be caught): AMEn renormalises the local
     # core (normx / nrmsc), so in all but the very first sweep the local norm is O(1), absolute == relative up to a
     # factor <= 4, and the sweeps after the first one repair the early over-truncation: observationally equivalent mutant.
@@ -102,6 +117,7 @@ SOURCE_MUTANTS = [
 def main():
     ap = argparse.ArgumentParser()
     ap.add_argument("--repo", default="/repo")
+    ap.add_argument("--only", default=None, help="comma separated substrings; run only the mutants whose name contains one")
     ns = ap.parse_args()
     tmp = tempfile.mkdtemp(prefix="rmode_selftest_", dir="/var/tmp" if os.path.isdir("/var/tmp") else None)
     results = []
@@ -110,7 +126,8 @@ def main():
                         ignore=shutil.ignore_patterns("__pycache__"))
         with open(os.path.join(tmp, "torchtt", "__init__.py"), "a") as fh:
             fh.write(HOOK)
-        for mut, prop, tags in MUTANTS:
+        sel = (lambda name: True) if not ns.only else (lambda name: any(t in name for t in ns.only.split(",")))
+        for mut, prop, tags in [m for m in MUTANTS if sel(m[0])]:
             env = dict(os.environ, RT_MUT=mut, PYTHONPATH=tmp)
             out = subprocess.run([sys.executable, os.path.join(HERE, "rmode.py"), prop, "--tier", "quick", "--seed", "0",
                                   "--repo", tmp], env=env, capture_output=True, text=True)
@@ -122,7 +139,7 @@ def main():
             results.append({"mutant": mut, "prop": prop, "expected_any_of": tags, "caught": caught,
                             "hits": {t: summary.get(t, 0) for t in tags}})
             print("%-10s %-4s %s %s" % (mut, prop, "CAUGHT" if caught else "MISSED", results[-1]["hits"]))
-        for mut, fname, old, new, prop, tags in SOURCE_MUTANTS:
+        for mut, fname, old, new, prop, tags in [m for m in SOURCE_MUTANTS if sel(m[0])]:
             sub = os.path.join(tmp, "src_" + mut)
             shutil.copytree(os.path.join(ns.repo, "torchtt"), os.path.join(sub, "torchtt"),
                             ignore=shutil.ignore_patterns("__pycache__"))
